@@ -48,14 +48,10 @@ impl Database for SledDB {
     }
 
     fn load(config: Self::Config) -> PmtreeResult<Self> {
-        let db = match config.open() {
-            Ok(db) => db,
-            Err(e) => {
-                return Err(PmtreeErrorKind::DatabaseError(
-                    DatabaseErrorKind::CustomError(format!("Cannot load database: {e}")),
-                ))
-            }
-        };
+        // Wait for a previous owner to release the storage lock, as `new` does: giving up on
+        // the first WouldBlock makes the caller fall back to `new`, which re-initialises
+        // (depth, next_index, leftmost branch) a database that holds a tree.
+        let db = Self::new_with_tries(config.clone(), 0)?.0;
 
         if !db.was_recovered() {
             return Err(PmtreeErrorKind::DatabaseError(
